@@ -112,6 +112,7 @@ def atomicTypeNames : List String := ["integer", "real", "boolean", "string", "u
 structure BaseType where
   type : String
   enum : List J := []
+  enumSet : Bool := false               -- `Enum != nil`: an "enum" member was present (even `["set",[]]`)
   minReal : Option Rat := none
   maxReal : Option Rat := none
   minInteger : Option Int := none
@@ -123,7 +124,7 @@ structure BaseType where
   deriving Repr, Inhabited
 
 def BaseType.simpleAtomic (b : BaseType) : Bool :=
-  atomicTypeNames.contains b.type && b.enum.isEmpty && b.minReal.isNone && b.maxReal.isNone && b.minInteger.isNone &&
+  atomicTypeNames.contains b.type && !b.enumSet && b.enum.isEmpty && b.minReal.isNone && b.maxReal.isNone && b.minInteger.isNone &&
   b.maxInteger.isNone && b.minLength.isNone && b.maxLength.isNone && b.refTable.isNone && b.refType.isNone
 
 /-- the "enum" member: `NewOvsSet(b.Enum)` encoded by `OvsSet.MarshalJSON` -/
@@ -142,16 +143,18 @@ def encodeBaseType (b : BaseType) : J :=
     ("minLength", b.minLength.map jInt), ("maxLength", b.maxLength.map jInt),
     ("refTable", b.refTable.map J.str), ("refType", b.refType.map J.str)])
 
-/-- the "enum" member read back (`BaseType.UnmarshalJSON`) -/
-def decodeEnum : Option J → Outcome (List J)
-  | none => .ok []
+/-- the "enum" member read back (`BaseType.UnmarshalJSON`): the values, and whether the member was there -/
+def decodeEnum : Option J → Outcome (List J × Bool)
+  | none => .ok ([], false)
   | some (.arr oSet) =>
     if oSet.length ≠ 2 || !headIs oSet ["set"] then .err "enum is neither an atom nor a set"
     else do
       let second ← idx oSet 1
       if !isArr second then .err "enum is neither an atom nor a set"
-      else assertArr second
-  | some a => .ok [a]
+      else do
+        let l ← assertArr second
+        pure (l, true)
+  | some a => .ok ([a], true)
 
 /-- `BaseType.UnmarshalJSON` -/
 def decodeBaseType (j : J) : Outcome BaseType :=
@@ -168,7 +171,7 @@ def decodeBaseType (j : J) : Outcome BaseType :=
     let maxLength ← optInt (getF m "maxLength")
     let refTable ← optStr (getF m "refTable")
     let refType ← optStr (getF m "refType")
-    pure { type := type.getD "", enum, minReal, maxReal, minInteger, maxInteger, minLength, maxLength, refTable, refType }
+    pure { type := type.getD "", enum := enum.1, enumSet := enum.2, minReal, maxReal, minInteger, maxInteger, minLength, maxLength, refTable, refType }
   | _ => .err "json: cannot unmarshal into base type"
 
 /-- `ColumnType`: max = -1 is "unlimited" -/
@@ -383,5 +386,248 @@ def decodeOperation (fuel : Nat) (j : J) : Outcome GOperation :=
            until_ := until_.getD "", durable, comment, lock, uuid := uuid.getD "", uuidName := uuidName.getD "" }
   | .null => .ok GOperation.zero
   | _ => .err "json: cannot unmarshal into operation"
+
+/-! ### results, table updates, monitor requests and replies, table and database schemas -/
+
+/-- a JSON object used as a map with string keys (`map[string]T`) -/
+def encodeStrMap {α} (f : α → J) (m : List (String × α)) : J := .obj (m.map (fun p => (p.1, f p.2)))
+
+def decodeStrMap {α} (f : J → Outcome α) : J → Outcome (List (String × α))
+  | .obj m => mapO (fun p => match f p.2 with
+      | .ok v => .ok (p.1, v)
+      | .err e => .err e
+      | .panic => .panic) m
+  | .null => .ok []
+  | _ => .err "json: cannot unmarshal into map"
+
+/-- `map[string]*T`: a null value leaves a nil pointer in the map; the model has no
+    nil entries and drops them (the comparison with the implementation ignores
+    null members) -/
+def notNullEntry (p : String × J) : Bool :=
+  match p.2 with
+  | .null => false
+  | _ => true
+
+def decodeStrMapPtr {α} (f : J → Outcome α) : J → Outcome (List (String × α))
+  | .obj m => decodeStrMap f (.obj (m.filter notNullEntry))
+  | j => decodeStrMap f j
+
+/-- a `*Row` member: absent / null is nil; an object (even empty) is a row -/
+def optRowPtr (fuel : Nat) : Option J → Outcome (Option GRow)
+  | none => .ok none
+  | some j => match decodeRow fuel j with
+    | .ok r => .ok (some r)
+    | .err e => .err e
+    | .panic => .panic
+
+structure WResult where
+  count : Int := 0
+  error : String := ""
+  details : String := ""
+  uuid : String := ""
+  rows : List WRow := []
+  deriving Repr, Inhabited
+
+structure GResult where
+  count : Int
+  error : String
+  details : String
+  uuid : String
+  rows : List GRow
+  deriving Repr, Inhabited
+
+def WResult.toGo (r : WResult) : GResult :=
+  { count := r.count, error := r.error, details := r.details, uuid := r.uuid, rows := r.rows.map WRow.toGo }
+
+/-- `OperationResult`: `uuid` is a struct, so `omitempty` never omits it -/
+def encodeResult (p : String → Bool) (r : WResult) : J :=
+  .obj (mkObj [("count", if r.count = 0 then none else some (jInt r.count)), ("error", omitStr r.error),
+    ("details", omitStr r.details), ("uuid", some (encodeUUID p r.uuid)), ("rows", omitList (encodeRow p) r.rows)])
+
+/-- member lookup for a member whose type has its own UnmarshalJSON (not a
+    pointer): a JSON null is handed to that decoder, not skipped -/
+def getFRaw (m : List (String × J)) (k : String) : Option J := m.lookup k
+
+def optUUID : Option J → Outcome String
+  | none => .ok ""
+  | some j => decodeUUID j
+
+def decodeResult (fuel : Nat) (j : J) : Outcome GResult :=
+  match j with
+  | .obj m => do
+    let count ← optInt (getF m "count")
+    let error ← optStr (getF m "error")
+    let details ← optStr (getF m "details")
+    let uuid ← optUUID (getFRaw m "uuid")
+    let rows ← optList (decodeRow fuel) (getF m "rows")
+    pure { count := count.getD 0, error := error.getD "", details := details.getD "", uuid, rows }
+  | .null => .ok { count := 0, error := "", details := "", uuid := "", rows := [] }
+  | _ => .err "json: cannot unmarshal into operation result"
+
+/-- `RowUpdate` (RFC 7047 update): old / new -/
+structure WRowUpdate where
+  new : Option WRow := none
+  old : Option WRow := none
+  deriving Repr, Inhabited
+
+structure GRowUpdate where
+  new : Option GRow
+  old : Option GRow
+  deriving Repr, Inhabited
+
+def WRowUpdate.toGo (u : WRowUpdate) : GRowUpdate := { new := u.new.map WRow.toGo, old := u.old.map WRow.toGo }
+
+def encodeRowUpdate (p : String → Bool) (u : WRowUpdate) : J :=
+  .obj (mkObj [("new", u.new.map (encodeRow p)), ("old", u.old.map (encodeRow p))])
+
+def decodeRowUpdate (fuel : Nat) (j : J) : Outcome GRowUpdate :=
+  match j with
+  | .obj m => do
+    let new ← optRowPtr fuel (getF m "new")
+    let old ← optRowPtr fuel (getF m "old")
+    pure { new, old }
+  | _ => .err "json: cannot unmarshal into row update"
+
+/-- `RowUpdate2`: initial / insert / modify / delete (old and new are not on the wire) -/
+structure WRowUpdate2 where
+  initial : Option WRow := none
+  insert : Option WRow := none
+  modify : Option WRow := none
+  delete : Option WRow := none
+  deriving Repr, Inhabited
+
+structure GRowUpdate2 where
+  initial : Option GRow
+  insert : Option GRow
+  modify : Option GRow
+  delete : Option GRow
+  deriving Repr, Inhabited
+
+def WRowUpdate2.toGo (u : WRowUpdate2) : GRowUpdate2 :=
+  { initial := u.initial.map WRow.toGo, insert := u.insert.map WRow.toGo, modify := u.modify.map WRow.toGo, delete := u.delete.map WRow.toGo }
+
+def encodeRowUpdate2 (p : String → Bool) (u : WRowUpdate2) : J :=
+  .obj (mkObj [("initial", u.initial.map (encodeRow p)), ("insert", u.insert.map (encodeRow p)),
+    ("modify", u.modify.map (encodeRow p)), ("delete", u.delete.map (encodeRow p))])
+
+def decodeRowUpdate2 (fuel : Nat) (j : J) : Outcome GRowUpdate2 :=
+  match j with
+  | .obj m => do
+    let initial ← optRowPtr fuel (getF m "initial")
+    let insert ← optRowPtr fuel (getF m "insert")
+    let modify ← optRowPtr fuel (getF m "modify")
+    let delete ← optRowPtr fuel (getF m "delete")
+    pure { initial, insert, modify, delete }
+  | _ => .err "json: cannot unmarshal into row update2"
+
+/-- `TableUpdates` / `TableUpdates2`: table -> uuid -> row update -/
+def encodeTableUpdates {α} (f : α → J) (tu : List (String × List (String × α))) : J :=
+  encodeStrMap (encodeStrMap f) tu
+
+def decodeTableUpdates {α} (f : J → Outcome α) (j : J) : Outcome (List (String × List (String × α))) :=
+  decodeStrMap (decodeStrMapPtr f) j
+
+/-- `MonitorRequest` -/
+structure WMonitorRequest where
+  columns : List String := []
+  where_ : List (String × String × WVal) := []
+  select : Option MonitorSelect := none
+  deriving Repr, Inhabited
+
+structure GMonitorRequest where
+  columns : List String
+  where_ : List (String × String × GoVal)
+  select : Option MonitorSelect
+  deriving Repr, Inhabited
+
+def encodeMonitorRequest (p : String → Bool) (r : WMonitorRequest) : J :=
+  .obj (mkObj [("columns", omitList J.str r.columns), ("where", omitList (encodeCondition p) r.where_),
+    ("select", r.select.map encodeMonitorSelect)])
+
+def optSelect : Option J → Outcome (Option MonitorSelect)
+  | none => .ok none
+  | some j => match decodeMonitorSelect j with
+    | .ok s => .ok (some s)
+    | .err e => .err e
+    | .panic => .panic
+
+def decodeMonitorRequest (fuel : Nat) (j : J) : Outcome GMonitorRequest :=
+  match j with
+  | .obj m => do
+    let columns ← optList strOf (getF m "columns")
+    let where_ ← optList (decodeCondition fuel) (getF m "where")
+    let select ← optSelect (getF m "select")
+    pure { columns, where_, select }
+  | .null => .ok { columns := [], where_ := [], select := none }
+  | _ => .err "json: cannot unmarshal into monitor request"
+
+/-- `MonitorCondSinceReply`: [found, last-txn-id, updates2] -/
+def encodeCondSince {α} (f : α → J) (found : Bool) (txn : String) (tu : List (String × List (String × α))) : J :=
+  .arr [.bool found, .str txn, encodeTableUpdates f tu]
+
+def decodeCondSince {α} (f : J → Outcome α) (j : J) : Outcome (Bool × String × List (String × List (String × α))) :=
+  match j with
+  | .arr [b0, s0, u] =>
+    -- null leaves the zero value of a bool / string
+    match (match b0 with | .bool b => some b | .null => some false | _ => none),
+          (match s0 with | .str s => some s | .null => some "" | _ => none) with
+    | some b, some s =>
+      match decodeTableUpdates f u with
+      | .ok tu => .ok (b, s, tu)
+      | .err e => .err e
+      | .panic => .panic
+    | _, _ => .err "json: cannot unmarshal"
+  | .arr _ => .err "expected a 3 element json array"
+  | _ => .err "json: cannot unmarshal into []json.RawMessage"
+
+/-- `TableSchema` -/
+structure TableSchemaW where
+  columns : List (String × ColumnSchema) := []
+  indexes : List (List String) := []
+  isRoot : Bool := false
+  deriving Repr, Inhabited
+
+def encodeTableSchema (t : TableSchemaW) : J :=
+  .obj (mkObj [("columns", some (encodeStrMap encodeColumnSchema t.columns)),
+    ("indexes", omitList (fun (ix : List String) => J.arr (ix.map J.str)) t.indexes),
+    ("isRoot", if t.isRoot then some (.bool true) else none)])
+
+def strList : J → Outcome (List String)
+  | .arr l => mapO strOf l
+  | .null => .ok []
+  | _ => .err "json: cannot unmarshal into []string"
+
+def decodeTableSchema (j : J) : Outcome TableSchemaW :=
+  match j with
+  | .obj m => do
+    let columns ← match getF m "columns" with
+      | none => (.ok [] : Outcome (List (String × ColumnSchema)))
+      | some c => decodeStrMapPtr decodeColumnSchema c
+    let indexes ← optList strList (getF m "indexes")
+    let isRoot ← optBool (getF m "isRoot")
+    pure { columns, indexes, isRoot := isRoot.getD false }
+  | .null => .ok {}
+  | _ => .err "json: cannot unmarshal into table schema"
+
+structure DatabaseSchemaW where
+  name : String := ""
+  version : String := ""
+  tables : List (String × TableSchemaW) := []
+  deriving Repr, Inhabited
+
+def encodeDatabaseSchema (d : DatabaseSchemaW) : J :=
+  .obj (mkObj [("name", some (.str d.name)), ("version", some (.str d.version)), ("tables", some (encodeStrMap encodeTableSchema d.tables))])
+
+def decodeDatabaseSchema (j : J) : Outcome DatabaseSchemaW :=
+  match j with
+  | .obj m => do
+    let name ← optStr (getF m "name")
+    let version ← optStr (getF m "version")
+    let tables ← match getF m "tables" with
+      | none => (.ok [] : Outcome (List (String × TableSchemaW)))
+      | some t => decodeStrMap decodeTableSchema t
+    pure { name := name.getD "", version := version.getD "", tables }
+  | .null => .ok {}
+  | _ => .err "json: cannot unmarshal into database schema"
 
 end Ovsdb.Wire
